@@ -48,15 +48,20 @@ Theorem C18_users_flush_restart_exact : forall ops sd,
 Proof. exact users_flush_restart_exact. Qed.
 Print Assumptions C18_users_flush_restart_exact.
 
-(* routes: guard = every saved pattern is stable under CanonicalPath (known finding otherwise) *)
+(* routes: no guard any more — every pattern is stable under the repaired CanonicalPath (C18_canon_stable_all) *)
 Theorem C18_routes_flush_restart_exact : forall url_ok ops sd,
-  forallb rop_wf ops = true -> inv (route_ops url_ok) sd ->
+  inv (route_ops url_ok) sd ->
   m_tab (fst (fst (mrun (route_ops url_ok) sd (ops ++ [MFlush; MRestart])))) =
   m_tab (fst (fst (mrun (route_ops url_ok) sd ops))).
 Proof. exact routes_flush_restart_exact. Qed.
 Print Assumptions C18_routes_flush_restart_exact.
 
-(* the guard holds for every pattern without white space (space, \t \n \v \f \r) *)
+(* CanonicalPath applied to its own result changes nothing, for every pattern (fix 1c2de2b in /repo) *)
+Theorem C18_canon_stable_all : forall p, canon_stable p = true.
+Proof. exact canon_stable_all. Qed.
+Print Assumptions C18_canon_stable_all.
+
+(* (kept: the direct proof for patterns without white space, which does not need the repair's loop) *)
 Theorem C18_no_space_canon_stable : forall p, no_space p = true -> canon_stable p = true.
 Proof. exact no_space_canon_stable. Qed.
 Print Assumptions C18_no_space_canon_stable.
@@ -189,7 +194,6 @@ Proof. exact users_model_passes. Qed.
 Print Assumptions C18_model_passes.
 
 Theorem C18_routes_model_passes : forall url_ok ops,
-  forallb rop_wf ops = true ->
   ok_hist (route_ops url_ok) (restart (route_ops url_ok) None, None) ops
           (snd (mrun (route_ops url_ok) (restart (route_ops url_ok) None, None) ops)) = true.
 Proof. exact routes_model_passes. Qed.
